@@ -571,7 +571,9 @@ def gen_hearm_case(rng):
     return {"stream": "hearm", "simseed": rng.randint(0, 10**6), "form": form, "registered": rng.choice([[T], [T], [T], [T], [T, T2], [T2], []]),
             "packets": pkts, "port": rng.choice([5353, 5353, 5353, 5353, 40000]), "pgap": rng.choice([0, 0, 0, 30]) if len(pkts) > 1 else 0,
             "gap": rng.choice([0, 1, 500, 500, 998, 999, 1000, 1001, 3000]), "ours": rng.choice([0, 1, 3]), "oursy": rng.random() < 0.3, "cover": cover,
-            "tick": rng.choice([None, None, None, 0.5])}
+            "tick": rng.choice([None, None, None, 0.5]),
+            # the (only) service was updated before the query is heard: it is still registered, the host is still authoritative
+            "updated": rng.random() < 0.35}
 
 
 def run_hearm(case, res):
@@ -600,6 +602,10 @@ def run_hearm(case, res):
         await zc.async_wait_for_start()
         for t in case["registered"]:
             zc.registry.async_add(ServiceInfo(t, "Mine." + t, port=80, addresses=[b"\x0a\x00\x00\x02"], server=MINE_HOST))
+        if case.get("updated"):
+            for t in case["registered"]:
+                # what `async_update_service` does to the registry (new TXT data for the same instance)
+                zc.registry.async_update(ServiceInfo(t, "Mine." + t, port=80, addresses=[b"\x0a\x00\x00\x02"], server=MINE_HOST, properties={"v": "2"}))
         await sim.sleep_ms(5000)
         now0 = sim.loop.ms
         mine = [ptr(T, "Inst%d.%s" % (i, T), 4500, now0 - 1000) for i in range(case["ours"])]
@@ -691,6 +697,77 @@ def run_hearm(case, res):
     pairs = [out["svc"], out["hear"]] + ([out["tick"]] if "tick" in out else [])
     sig = ("hearm", case["form"], tuple(sorted(case["registered"])), case["port"] == 5353, min(case["gap"], 1001), len(case["packets"]),
            tuple(sorted((tag, ty, qu) for pk in case["packets"] for (tag, ty, qu) in pk["qs"]))[:3], bool(theirs))
+    return pairs, bad, sig
+
+
+# ------------------------------------------------------------------------------------------
+# stream ingest: the cache is built by the real receive path -- response datagrams delivered to a real host, a pointer possibly twice in one
+# datagram (answer + additional section), refreshed by later datagrams -- and the browser query's known answers are compared with what the
+# datagram history says: a record's life starts at its LAST sighting
+
+
+def gen_ingest_case(rng):
+    ttl = rng.choice([1125, 1200, 1200, 4500])     # not below the 1125 s floor the record manager applies to received pointers (C06's business)
+    n = rng.choice([1, 2, 3])
+    events = [{"at": 0, "recs": [[i, rng.random() < 0.6] for i in range(n)]}]      # [alias index, sent twice in this datagram]
+    t = 0
+    for _ in range(rng.choice([1, 1, 2, 3])):
+        t += rng.choice([ttl * 300, ttl * 499, ttl * 500, ttl * 501, ttl * 700, ttl * 900])
+        events.append({"at": t, "recs": [[i, rng.random() < 0.3] for i in range(n) if rng.random() < 0.75] or [[0, False]]})
+    asks = sorted({e["at"] + d for e in events for d in rng.sample([0, 1, 1000, ttl * 100, ttl * 499, ttl * 500, ttl * 501, ttl * 800], 3)})
+    return {"stream": "ingest", "simseed": rng.randint(0, 10**6), "ttl": ttl, "n": n, "events": events, "asks": asks}
+
+
+def run_ingest(case, res):
+    from zeroconf import DNSIncoming, DNSOutgoing, DNSQuestionType, const
+    import zeroconf._services.browser as B
+
+    sim = vsim.Sim(case["simseed"], maxdelay=0)
+    obs = []
+    ttl = case["ttl"]
+
+    async def main(sim):
+        host = sim.make_host("B", "10.0.0.2")
+        zc = host.zc
+        await zc.async_wait_for_start()
+        await sim.sleep_ms(2000)
+        t0 = sim.loop.ms
+        last = {}     # alias index -> arrival time of its last sighting (the property's own bookkeeping)
+        todo = sorted([(e["at"], 0, e) for e in case["events"]] + [(a, 1, None) for a in case["asks"]], key=lambda x: (x[0], x[1]))
+        for (at, kind, e) in todo:
+            if t0 + at > sim.loop.ms:
+                await sim.sleep_ms(t0 + at - sim.loop.ms)
+            now = sim.loop.ms
+            if kind == 0:
+                out = DNSOutgoing(const._FLAGS_QR_RESPONSE | const._FLAGS_AA)
+                for (i, twice) in e["recs"]:
+                    r = ptr(T, "Inst%d.%s" % (i, T), ttl, 0)
+                    out.add_answer_at_time(r, 0)
+                    if twice:
+                        out.add_additional_answer(ptr(T, "Inst%d.%s" % (i, T), ttl, 0))
+                    last[i] = now
+                for pkt in out.packets():
+                    host.inject(pkt, "10.0.0.9", 5353)
+            else:
+                pre_hist, pre_cache = hist_tokens(zc.question_history), cache_tokens(zc.cache)
+                outs = B.generate_service_query(zc, float(now), {T}, True, DNSQuestionType.QU)
+                pair = ("c13svc %d 1 %s %s 1 %s" % (now, pre_cache, pre_hist, C.hs(T)), "%s || %s" % (outs_str(outs, float(now)), hist_str(zc.question_history)), "svc")
+                got = sorted((a.alias, a.ttl) for o_ in outs for p_ in o_.packets() for a in DNSIncoming(p_).answers())
+                want = sorted(("Inst%d.%s" % (i, T), int((ts + 1000 * ttl - now) // 1000)) for i, ts in last.items() if now < ts + 500 * ttl)
+                obs.append((at, pair, got, want, bool(outs)))
+        await vsim.close_host(host)
+
+    sim.run(main)
+    bad = loop_errors(sim)
+    pairs = []
+    for (at, pair, got, want, asked) in obs:
+        pairs.append(pair)
+        if not asked:
+            bad.append(("C13:qu-suppressed", "the QU question was not asked at +%d ms" % at))
+        elif got != want:
+            bad.append(("C13:known-answers-after-refresh", "at +%d ms the query lists known answers %s; by the datagrams received (TTL %d s, a record's life starts at its last "
+                        "sighting) the records with more than half their TTL left, and their remaining TTLs, are %s" % (at, got, ttl, want)))
+    sig = ("ingest", ttl, len(case["events"]), any(tw for e in case["events"] for (_, tw) in e["recs"]), len(obs))
     return pairs, bad, sig
 
 
@@ -906,7 +983,7 @@ def loop_model_check(res, case, run_driver):
 # ------------------------------------------------------------------------------------------
 
 
-RUNNERS = {"svc": run_svc, "req": run_req, "hear": run_hear, "hearm": run_hearm, "loop": run_loop}
+RUNNERS = {"svc": run_svc, "req": run_req, "hear": run_hear, "hearm": run_hearm, "ingest": run_ingest, "loop": run_loop}
 
 
 def guarded(case, res):
@@ -939,7 +1016,7 @@ def run(ctx):
     n_loop = C.Budget(ctx["tier"], 150, 2500).n * scale
     cases = [body.get("case", body) for _, body in C.load_corpus("C13")]
     cases += [gen_svc_case(rng) for _ in range(n_svc)] + [gen_svc_case(rng, big=True) for _ in range(n_big)]
-    cases += [gen_req_case(rng) for _ in range(n_req)] + [gen_req_case(rng, many=rng.choice([60, 120, 150, 150, 300])) for _ in range(C.Budget(ctx["tier"], 10, 150).n)] + [gen_hear_case(rng) for _ in range(n_hear)] + [gen_hearm_case(rng) for _ in range(n_hearm)] + [gen_loop_case(rng) for _ in range(n_loop)]
+    cases += [gen_req_case(rng) for _ in range(n_req)] + [gen_req_case(rng, many=rng.choice([60, 120, 150, 150, 300])) for _ in range(C.Budget(ctx["tier"], 10, 150).n)] + [gen_hear_case(rng) for _ in range(n_hear)] + [gen_hearm_case(rng) for _ in range(n_hearm)] + [gen_ingest_case(rng) for _ in range(C.Budget(ctx["tier"], 60, 1000).n * scale)] + [gen_loop_case(rng) for _ in range(n_loop)]
     res.rule = ("svc: cache of 0-400 PTRs (ages 0, half TTL -1/0/+1, expiry -1/0/+1, random; 2 types, re-cased owner names, noise records) x forced QU/QM/none "
                 "x multicast/unicast x an earlier asker (same instance with the same/smaller/larger cache, or a question heard as responder) at gaps "
                 "{0,1,500,998,999,1000,1001,5000}; req: lookup request queries over SRV/TXT/A/AAAA ages; hear: real host hears a question from the link; "
